@@ -95,22 +95,23 @@ CHECKS.update({
 NOT_YET = {}
 # extensions made after the second round of seeded changes (appended to the level text)
 EXTRA = {
+ "C18": " Every goroutine of the independent phase also builds a small project with response codes no build of the process has seen; a process ended by the runtime ('fatal error: concurrent map ...') is a violation.",
  "C14": "Fourth root spelling: the root file named through a symbolic link whose target lives elsewhere next to decoys; kit.NewJapi must hand only paths of the project directory to the OS. Recorded finding: a cycle is noticed one lap late (cyc in Inc.tla).",
  "C16": " The mechanism-state graph also runs on the type graphs of MC_C01types, the documents of MC_C10sites and the block-model documents (every 5th quick / all thorough).",
- "C04": " Matrix as built now: 15 defect classes (plus unsatisfiable-regex, regex-matching-empty); sweeps also run over the documents of MC_C10sites and MC_C01types. Positions '*-full' put the schema under test among valid companions of every other kind on one method (Path, Query, request headers / body, response headers / body).",
+ "C04": " Matrix as built now: 15 defect classes (plus unsatisfiable-regex, regex-matching-empty); sweeps also run over the documents of MC_C10sites and MC_C01types. Positions '*-full' put the schema under test among valid companions of every other kind on one method (Path, Query, request headers / body, response headers / body). The shape check descends into the rules of every node (a rule that is an object / array carries a list of children; null is not a list); body objnull has a rule whose value is an empty array.",
  "C10": " MC_C10sites: one of 11 macro bodies pasted at 1-3 of 5 sites (275 documents beyond the length bound); model invariant CatalogTransparent (Build(macro form) = Build(in-place form)).",
- "C09": " Base document d6 (an explicit context of the includer around an implicit URL and a method with its own path); model invariant CatalogSame (catalog of the split tree = catalog of the unsplit tree). Base document d7 (two resources of identical layout with different Description texts: after two cuts the texts lie at the same offsets of two files); 7 base documents in all. d8 (two types that need each other, the first with a rule error) and d9 (Headers typed by a non-object): 9 base documents; errors inside bodies are mapped line by line.",
+ "C09": " Base document d6 (an explicit context of the includer around an implicit URL and a method with its own path); model invariant CatalogSame (catalog of the split tree = catalog of the unsplit tree). Base document d7 (two resources of identical layout with different Description texts: after two cuts the texts lie at the same offsets of two files); 7 base documents in all. d8 (two types that need each other, the first with a rule error) and d9 (Headers typed by a non-object): 9 base documents; errors inside bodies are mapped line by line. Base document d10 is rejected only because MACRO definitions precede JSIGHT.",
  "C02": " The schema skeleton also lists the first-level children of every schema (key, token type, JSight type). Compile-phase path checks are modelled (root-level URL / methods without Path are parsed before the build phase; errors of a Path's parent path stand on Path). The split projects of MC_C09 are replayed as layouts that distribute the text over INCLUDEd files.",
- "C01": " Type graphs: every graph over 2 (quick, 2 025 cases) / 3 (thorough, 140 625) user types with bodies {leaf, reference, or, property, optional property, array item, allOf} crossed with 9 sites using @t1 (Path by reference / by property, Headers, Query, Request, response, JSON-RPC, another TYPE) is built in crash-isolated workers (MC_C01types; model invariant: the walk with a visited set needs <= N unfoldings). Later additions: type-body shapes any / empty / regex / scalar; 'or' diamonds of depth 8-22 timed against the per-case limit (known finding: exponential walk in the dependency); fuzz family of long lines made of one repeated byte around the 200-byte quote limit; macro diamonds (MC_C01macro: the model states that the expanded tree has 2^n copies, depths 8-20 are timed; known finding).",
- "C03": " Undefined tag inserted at every position of every Tags list. Annotation fault on a Body whose parent is a Request. As built now: 216 cases (quick); blocks urlTT (URL-level Tags every method overrides) and respB (bodies given by child Body directives); the 'second' fault class includes Body.",
- "C05": " Quick tier: the 2-block generator also places a prelude of dependency blocks (tags, type, enum, macro) before or after the chosen blocks, so blocks with dependencies and declarations after use are reached.",
+ "C01": " Type graphs: every graph over 2 (quick, 2 025 cases) / 3 (thorough, 140 625) user types with bodies {leaf, reference, or, property, optional property, array item, allOf} crossed with 9 sites using @t1 (Path by reference / by property, Headers, Query, Request, response, JSON-RPC, another TYPE) is built in crash-isolated workers (MC_C01types; model invariant: the walk with a visited set needs <= N unfoldings). Later additions: type-body shapes any / empty / regex / scalar; 'or' diamonds of depth 8-22 timed against the per-case limit (known finding: exponential walk in the dependency); fuzz family of long lines made of one repeated byte around the 200-byte quote limit; macro diamonds (MC_C01macro: the model states that the expanded tree has 2^n copies, depths 8-20 are timed; known finding). Workers carry a per-case watchdog (60 s): a build that does not come back ends the worker at once and is attributed to its case; after 6 dead workers a step stops exploring.",
+ "C03": " Undefined tag inserted at every position of every Tags list. Annotation fault on a Body whose parent is a Request. As built now: 216 cases (quick); blocks urlTT (URL-level Tags every method overrides) and respB (bodies given by child Body directives); the 'second' fault class includes Body. Base b4 begins with a root-level PASTE whose macro is defined later; a second Tags directive is among the duplicate faults.",
+ "C05": " Quick tier: the 2-block generator also places a prelude of dependency blocks (tags, type, enum, macro) before or after the chosen blocks, so blocks with dependencies and declarations after use are reached. The invariants are evaluated on every catalog the real code produces, also when the specification rejects the document (block rpcDup: one JSON-RPC method twice).",
  "C06": " Histories: every history of <= 2 (quick, 8 190) / 3 (thorough, reduced menus) builds over 5 x 3 file states and lists of option values from a process-wide pool (MC_C06); outcome class predicted by the model, bytes compared with a fresh process using freshly made options. The sweep includes the documents the model rejects (the error must be the same in every rebuild). Concurrent builds: 16 goroutines rebuild block-model documents in tight loops (40 / 400 rounds x 25 rebuilds); every result must equal the lone build.",
- "C07": " Contexts across files: MC_C07 variant 'contexts' (explicit / implicit contexts, methods with own path, ')' on both sides of an INCLUDE; 21 931 projects). The replay rotates the line-break convention of all files of a project (LF, CRLF, CR) as well as the spelling of the root path. Third rotation: every line padded with trailing blanks to 199 / 200 / 201 / 260 bytes (limit of the error quote). Build-phase errors in split projects: the split projects of MC_C09 (incl. types that need each other with a rule error, Headers typed by a non-object) are replayed and every reported place must be a real one.",
+ "C07": " Contexts across files: MC_C07 variant 'contexts' (explicit / implicit contexts, methods with own path, ')' on both sides of an INCLUDE; 21 931 projects). The replay rotates the line-break convention of all files of a project (LF, CRLF, CR) as well as the spelling of the root path. Third rotation: every line padded with trailing blanks to 199 / 200 / 201 / 260 bytes (limit of the error quote). Build-phase errors in split projects: the split projects of MC_C09 (incl. types that need each other with a rule error, Headers typed by a non-object) are replayed and every reported place must be a real one. Variant aggr of MC_C07: four files, menus of INCLUDEs and one TYPE - chains of equal depth through files that consist of INCLUDEs only. Every fourth group of projects lives in a directory 280 bytes deep. Errors at the end of the file are checked for line and column too.",
  "C08": " Explicit closure: besides the full closure every single directive made explicit on its own (an explicit context next to implicitly nested siblings). When the canonical layout already deviates from the model, the other layouts are compared with the canonical layout directly. Random layouts also put trailing blanks behind the last line of a schema / enum / regex body.",
  "C11": " The resolver across an INCLUDE: MC_C07 variant 'contexts' (21 931 projects) replayed for verdict, class and place. Second resolver: for every document and explicit-mask variant of MC_C08doc without PASTE, the tree after the MACRO/PASTE pass must equal the scanned tree without MACROs. The per-edge replay renders with LF, CRLF and CR in turn. An extra '(' (token O) is part of the state graph: it is refused (nothing to open) where no directive has just been written or the directive has its '(' already (action property OpenRule; 2 895 such edges replayed).",
  "C12": " Bounds as built: 7 (quick) / 9 (thorough) bytes over the general menu plus a Description-focused configuration (18 / 20 bytes over a 9-chunk menu: text lines, CR / LF / CRLF, '( )', keywords of 3 bytes); corpus files validated by Trace_Scan. A comments-focused configuration (14 / 18 bytes over '#', '###', '//', '/*', '*/', CR, LF, blank, two keywords, a parameter: 294 000 tapes quick) is replayed as well. Further configurations: a regex body and what follows it in every line-break convention (22 / 25 bytes); what stands behind a schema body, explored without the VIEW (recorded finding behind-a-body). Invariant Closed (a scan that reaches the end of the file without an error has closed every lexeme it has begun) is stated on the model and is not copied from the code: it exposed two scanner defects (regex cut after a backslash, unclosed parenthesised Description), both repaired.",
- "C13": " The Description-focused scanner configuration (keywords that end a Description text) is replayed as well. The same full-alphabet exploration also starts at directive starts reached through prefixes that leave other entries on the scanner's stacks (behind '200 / Body any', 'Request / Body any', '... / TAG @t', 'GET /a', 'TYPE @t / {}', 'URL /a ('): 2 contexts quick, 6 thorough, 180 224 edges each. Start contexts also with lone-CR prefixes (behind ')' of an explicit context, behind a response with a child Body, behind a method line).",
- "C15": " Base set sA: two resources sharing a path parameter described by one Path with an inline 'or' of rule sets. 7 base sets now (840 permutations quick); sB (a regex type with several matching strings used by two resources) shows the recorded finding C15-regex-example-order. Base set sC: a declared TAG whose name is also the automatic tag of a path.",
+ "C13": " The Description-focused scanner configuration (keywords that end a Description text) is replayed as well. The same full-alphabet exploration also starts at directive starts reached through prefixes that leave other entries on the scanner's stacks (behind '200 / Body any', 'Request / Body any', '... / TAG @t', 'GET /a', 'TYPE @t / {}', 'URL /a ('): 2 contexts quick, 6 thorough, 180 224 edges each. Start contexts also with lone-CR prefixes (behind ')' of an explicit context, behind a response with a child Body, behind a method line). Start contexts typeAnyFirst / typeEmptyLast: a body-less TYPE with the notation before or behind its name.",
+ "C15": " Base set sA: two resources sharing a path parameter described by one Path with an inline 'or' of rule sets. 7 base sets now (840 permutations quick); sB (a regex type with several matching strings used by two resources) shows the recorded finding C15-regex-example-order. Base set sC: a declared TAG whose name is also the automatic tag of a path. Base set sD: two resources whose paths differ by the trailing slash, a macro of root-level content and its root-level PASTE.",
  "C17": " Quick tier sweeps the prelude documents of the generator (stand-alone methods with path parameters). OpenAPI.tla specifies the export as a function OAS(C) of the catalog value (servers, path items created by the first interaction of a path, operations with summary / tags by title / parameter names / request body / response keys, components); TLC checks Sound(C) = C17 on every accepted document of the block model (2 273 quick / ~20 000 thorough) and the real ToOpenAPIJson output is projected onto OAS(C): operation presence, path parameters and components are verdicts, the rest is reported as drift (0 on the current tree). The skeleton OAS(C) also predicts info, the media types of every request body and response (by body format; union for merged responses), the response header names, and that the export refuses to merge a response of the notation empty (blocks respSame / respSameJ / respSameE); these go beyond the statement and are compared as drift.",
  "C19": " Project p4: banned directives that carry a fault of their own (second Path parameter) in the root and in an included file; BanRule states that the ban is reported at the keyword unless a fault is met earlier in scan order. The histories of MC_C06 (option values reused across builds) are replayed for the verdict class. Project p5: JSIGHT written in an included file (5 projects in all).",
 }
